@@ -87,6 +87,7 @@ Definition all_ctor_names (unions:list udecl) : list string :=
 Definition wfp (strict:bool) (p:prog) : Prop :=
   NoDup (all_ctor_names (p_unions p)) /\
   Forall (fun d : var * (list var * block) =>
+            reserved (fst d) = false /\
             Forall (fun x => reserved x = false) (fst (snd d)) /\
             wfb strict (ctor_declared (p_unions p)) (snd (snd d))) (p_funs p) /\
   wfb strict (ctor_declared (p_unions p)) (p_main p).
